@@ -2,6 +2,7 @@
      ops: A spf frame creator idhex   Store.AddRoot(spf, event{frame, creator, id})
           G f                         Store.GetFrameRoots(f)
           R                           Orderer.Reset(epoch+1, validators)  (drop + open epoch DB)
+          B                           restart: new Store + Orderer over the same databases, Bootstrap
    impl observation per op:  ; ok            (A, R)
                              ; g<f:v:idhex,f:v:idhex,...|->   (G: the slice returned, in order)
    model side: extracted Roots.rstep from Roots.init (table + LRU cache): predicts the exact slice;
@@ -19,6 +20,7 @@ let parse_op = function
   | ["A"; spf; fr; cr; id] -> RAdd (n_of_tok spf, n_of_tok fr, n_of_tok cr, bytes_of_hex id)
   | ["G"; f] -> RGet (n_of_tok f)
   | ["R"] -> RReset
+  | ["B"] -> RRestart
   | t -> failwith ("bad op " ^ String.concat " " t)
 
 let parse_roots (s : string) : root list option =
